@@ -29,7 +29,7 @@ fn base(name: &str) -> Profile {
         worker_kinds: vec![wk(1), wk(2)], initial_workers: vec![0, 1], max_connects: 0,
         classes: vec![class(10_000), class(20_000)],
         submits: vec![arr(&[1, 2, 3], 0, 0)], max_submits: 1, opens: 0, losses: 0, cancels: 0,
-        fails: 0, launch_fails: 0, stops: 0, ticks: 0, forgets: 0, drain: true, prunes: 0, queue_events: 0, slow_stop: false,
+        fails: 0, launch_fails: 0, stops: 0, ticks: 0, forgets: 0, drain: true, prunes: 0, queue_events: 0, slow_stop: false, finish_running: false,
     }
 }
 
@@ -174,6 +174,14 @@ pub fn get(name: &str) -> Option<Profile> {
             classes: vec![class(20_000), class(10_000)],
             submits: vec![arr(&[1], 0, 0), arr(&[1, 2], 1, 0), arr(&[1], 0, 0), arr(&[1, 2], 0, 0)],
             max_submits: 4, cancels: 2, fails: 1, pf_max: 1, slow_stop: true,
+            ..base(name)
+        },
+        // workers with `--on-server-lost finish-running` that lose their connection while they run tasks and hold pre-sent ones
+        "orphan" => Profile {
+            worker_kinds: vec![wk(1)],
+            initial_workers: vec![0, 0],
+            submits: vec![arr(&[1, 2, 3, 4], 0, 0), arr(&[1, 2], 0, 0)],
+            max_submits: 2, losses: 2, pf_max: 2, max_connects: 1, finish_running: true,
             ..base(name)
         },
         // pre-sent tasks with two variants of different size, called back and given back to the same worker
